@@ -172,7 +172,9 @@ pub fn run(ctx: &Ctx) -> PropReport {
     let per = ctx.tier.pick(6000u64, 100_000u64);
     rep.push(run_sharded(ctx, "reference", per * NAMES.len() as u64, case_strategy, |(n, s): &(String, StateSpec)| judge(n, s), |(n, s)| case_json(n, s)));
     rep.push(profile_diff(ctx, ctx.tier.pick(60_000, 400_000)));
-    rep.push(crate::props::incontext::run(ctx, ctx.tier.pick(40_000, 600_000)));
+    for r in crate::props::incontext::run_all(ctx, ctx.tier.pick(40_000, 600_000)) {
+        rep.push(r);
+    }
     rep
 }
 
